@@ -71,6 +71,17 @@ class Script:
         self.frames.append((self.peer.control(self.maxctl), None, False, None))
 
 
+def bloated_deflate(data, min_size, wbits=15):
+    """raw-deflate `data` as permessage-deflate would, prefixed with empty stored blocks so that the
+    wire payload is longer than min_size although it inflates to `data`"""
+    z = zlib.compressobj(6, zlib.DEFLATED, -wbits, 8)
+    body = (z.compress(data) + z.flush(zlib.Z_SYNC_FLUSH))[:-4]
+    empty = b"\x00\x00\x00\xff\xff"
+    out = empty * (min_size // len(empty) + 1) + body
+    assert zlib.decompressobj(-wbits).decompress(out + b"\x00\x00\xff\xff") == data and len(out) > min_size
+    return out
+
+
 def violations(rng, comp, in_frag, frag_text, peer, maxsize):
     """(name, bytes) of frames that violate the protocol at a position whose context is
     (in_frag: a fragmented message is open; frag_text: it is a text message)."""
@@ -114,6 +125,13 @@ def violations(rng, comp, in_frag, frag_text, peer, maxsize):
         d = (z.compress(big) + z.flush(zlib.Z_SYNC_FLUSH))[:-4]
         if len(d) <= maxsize:
             out.append(("too-big-after-inflate", frame(True, 2, d, rsv=0x40, mask=k())))
+    if comp is not None and not in_frag:
+        # compressed wire payload above the limit although it inflates to 2 bytes: too big BEFORE decompression
+        d = bloated_deflate(b"ok", maxsize, comp[1] or 15)
+        out.append(("too-big-wire-deflated", frame(True, 1, d, rsv=0x40, mask=k())))
+        cut = len(d) // 2
+        out.append(("too-big-wire-deflated-fragmented",
+                    frame(False, 1, d[:cut], rsv=0x40, mask=k()) + frame(True, 9, b"", mask=k()) + frame(True, 0, d[cut:], mask=k())))
     # too big before decompression (only when no fragment is open: the open buffer length is then 0)
     if not in_frag:
         out.append(("too-big", frame(True, 2, b"B" * (maxsize + 1), rsv=0, mask=k())))
@@ -195,6 +213,37 @@ def limit_cases(rng):
                     c["before"] = [] if viol else [m]
                     c["violated"] = viol
                     c["pos"] = 0
+                    out.append(c)
+    # compressed WIRE length > limit >= inflated length: refused before decompression, nothing delivered,
+    # a valid message before it is delivered, the valid message after it is not
+    for L in (20, 125, 126, 300):
+        for comp in ((False, None), (True, None), (False, 10)):
+            for kind in ("padded", "incompressible"):
+                for nfrag in (1, 2):
+                    peer = B.Peer(rng, comp, True)
+                    first = [True, "first"]
+                    p1, r1 = peer.payload(first)
+                    if kind == "padded":
+                        d = bloated_deflate(b"ok", L, comp[1] or 15)
+                    else:
+                        raw = bytes(rng.randrange(256) for _ in range(L))      # exactly the limit once inflated
+                        z = zlib.compressobj(6, zlib.DEFLATED, -(comp[1] or 15), 8)
+                        d = (z.compress(raw) + z.flush(zlib.Z_SYNC_FLUSH))[:-4]
+                        if len(d) <= L:
+                            continue
+                    cut = len(d) // 2
+                    if nfrag == 1:
+                        v = frame(True, 2, d, rsv=0x40, mask=peer.key())
+                    else:
+                        v = (frame(False, 2, d[:cut], rsv=0x40, mask=peer.key()) + frame(True, 9, b"pp", mask=peer.key())
+                             + frame(True, 0, d[cut:], mask=peer.key()))
+                    later = frame(True, 1, b"later", mask=peer.key())       # uncompressed (RSV1 clear): always decodable
+                    wire = frame(True, 1, p1, rsv=r1, mask=peer.key()) + v + later
+                    c = B.recv_case(comp[0], wire, max_=L, wbits=comp[1], seg=B.rand_seg(rng, len(wire)),
+                                    label="wire-over-limit-" + kind)
+                    c["before"] = [first]
+                    c["violated"] = True
+                    c["pos"] = 1
                     out.append(c)
     return out
 
